@@ -1,4 +1,5 @@
 (* C15: what the bench reader builds for a gate line denotes the line; closed form of the reader on well-formed texts. *)
+From Coq Require Import Ascii.
 From stdpp Require Import strings gmap sets fin_sets.
 From CG Require Import Base.Fold Model.Bench Model.BenchSpec.
 Open Scope string_scope.
@@ -205,3 +206,215 @@ Proof.
   apply NoDup_Permutation; [vm_compute; repeat constructor; set_solver|repeat constructor; set_solver|].
   intros t. vm_compute wr_gates. destruct t; set_solver.
 Qed.
+
+(* ================= names: identifiers never collide with blackbox pins ================= *)
+Lemma slen_app a b : String.length (a ++ b) = String.length a + String.length b.
+Proof. induction a; simpl; auto. Qed.
+Lemma app_inv_len a b t1 t2 : a ++ t1 = b ++ t2 → String.length t1 = String.length t2 → a = b ∧ t1 = t2.
+Proof.
+  revert b. induction a as [|c a IH]; intros [|c' b] H Hl.
+  - done.
+  - exfalso. apply (f_equal String.length) in H. rewrite !slen_app in H. simpl in H. lia.
+  - exfalso. apply (f_equal String.length) in H. rewrite !slen_app in H. simpl in H. lia.
+  - change (String c (a ++ t1) = String c' (b ++ t2)) in H. injection H as -> H. destruct (IH _ H Hl) as [-> ->]. done.
+Qed.
+Lemma pin_dff_inj q1 p1 q2 p2 : String.length p1 = String.length p2 →
+  pin (dff_inst q1) p1 = pin (dff_inst q2) p2 → q1 = q2 ∧ p1 = p2.
+Proof.
+  intros Hl H. unfold pin, dff_inst in H.
+  apply app_inv_len in H as [H1 H2]; [|simpl; by rewrite Hl].
+  apply app_inv_len in H1 as [-> _]; [|done]. injection H2 as ->. done.
+Qed.
+Lemma all_chars_app P a b : all_chars P (a ++ b) = all_chars P a && all_chars P b.
+Proof.
+  induction a as [|c a IH]; [done|]. change (P c && all_chars P (a ++ b) = P c && all_chars P a && all_chars P b).
+  rewrite IH. by rewrite andb_assoc.
+Qed.
+Lemma ident_not_pin inst p : ident (pin inst p) = false.
+Proof.
+  unfold pin. destruct inst as [|c r]; [reflexivity|].
+  change (is_alpha c && all_chars is_idchar (r ++ "." ++ p) = false). rewrite all_chars_app.
+  change (all_chars is_idchar ("." ++ p)) with (is_idchar "."%char && all_chars is_idchar p).
+  change (is_idchar "."%char) with false. rewrite andb_false_l. by rewrite !andb_false_r.
+Qed.
+
+(* ================= closed form of the reader on well-formed line lists ================= *)
+Lemma NoDup_bind_inj {A B} (f : A → list B) (l : list A) x a b :
+  NoDup (l ≫= f) → a ∈ l → b ∈ l → x ∈ f a → x ∈ f b → a = b.
+Proof.
+  induction l as [|y l IH]; csimpl; intros Hnd Ha Hb Hxa Hxb; [by apply elem_of_nil in Ha|].
+  apply NoDup_app in Hnd as (Hy & Hdisj & Hl).
+  apply elem_of_cons in Ha as [->|Ha]; apply elem_of_cons in Hb as [->|Hb]; [done| | |by apply IH].
+  - exfalso. eapply Hdisj; [exact Hxa|]. apply elem_of_list_bind. eauto.
+  - exfalso. eapply Hdisj; [exact Hxb|]. apply elem_of_list_bind. eauto.
+Qed.
+
+Definition line_lhs (l : bline) : list string :=
+  match l with BInput n => [n] | BGate n _ _ => [n] | BDff q _ => [q] | BOutput _ => [] end.
+
+Section closed_form.
+  Context (ls : list bline) (Hwf : wfb ls = true).
+  Let outs : gset string := list_to_set (decl_outputs ls).
+  Let NL := ls ≫= line_nodes outs.
+
+  Lemma wf_line l : l ∈ ls → line_ok l = true.
+  Proof.
+    intros Hl. unfold wfb in Hwf. rewrite !andb_true_iff in Hwf. destruct Hwf as [[H1 _] _].
+    rewrite forallb_forall in H1. apply H1. by apply elem_of_list_In.
+  Qed.
+  Lemma wf_nodup : NoDup (ls ≫= line_lhs).
+  Proof. unfold wfb in Hwf. rewrite !andb_true_iff in Hwf. destruct Hwf as [[_ H2] _]. by apply bool_decide_eq_true in H2. Qed.
+  Lemma wf_defined n : n ∈ (operands ls ++ decl_outputs ls)%list → n ∈ ls ≫= line_lhs.
+  Proof.
+    intros Hn. unfold wfb in Hwf. rewrite !andb_true_iff in Hwf. destruct Hwf as [_ H3].
+    rewrite forallb_forall in H3. apply elem_of_list_In, H3 in Hn. by apply bool_decide_eq_true in Hn.
+  Qed.
+  Lemma lhs_same_line n l1 l2 : l1 ∈ ls → l2 ∈ ls → n ∈ line_lhs l1 → n ∈ line_lhs l2 → l1 = l2.
+  Proof. intros. eapply (NoDup_bind_inj line_lhs ls n); eauto using wf_nodup. Qed.
+
+  (* the key of a node entry is either the (identifier) lhs of its line or a pin of its DFF line *)
+  Lemma key_kind l i x : l ∈ ls → (i, x) ∈ line_nodes outs l →
+    (ident i = true ∧ i ∈ line_lhs l) ∨
+    (ident i = false ∧ ∃ q d p, l = BDff q d ∧ i = pin (dff_inst q) p ∧ (p = rd_dff_in ∨ p = rd_dff_out)).
+  Proof.
+    intros Hl Hi. pose proof (wf_line l Hl) as Hok. destruct l as [n|n|n g ops|q d]; simpl in Hi, Hok.
+    - apply elem_of_list_singleton in Hi as [= -> _]. left. split; [done|]. simpl. by left.
+    - by apply elem_of_nil in Hi.
+    - destruct (gate_args g ops) as [[t fi]|]; [|by apply elem_of_nil in Hi].
+      apply elem_of_list_singleton in Hi as [= -> _]. apply andb_true_iff in Hok as [Hid _]. left. split; [done|]. simpl. by left.
+    - rewrite !elem_of_cons in Hi. destruct Hi as [[= -> _]|[[= -> _]|[[= -> _]|Hi]]]; [| | |by apply elem_of_nil in Hi].
+      + left. split; [done|]. simpl. by left.
+      + right. split; [apply ident_not_pin|]. exists q, d, rd_dff_in. auto.
+      + right. split; [apply ident_not_pin|]. exists q, d, rd_dff_out. auto.
+  Qed.
+
+  Lemma key_unique_line l i x y : l ∈ ls → (i, x) ∈ line_nodes outs l → (i, y) ∈ line_nodes outs l → x = y.
+  Proof.
+    intros Hl Hx Hy. pose proof (wf_line l Hl) as Hok. destruct l as [n|n|n g ops|q d]; simpl in Hx, Hy, Hok.
+    - apply elem_of_list_singleton in Hx as [= -> ->]. by apply elem_of_list_singleton in Hy as [= ->].
+    - by apply elem_of_nil in Hx.
+    - destruct (gate_args g ops) as [[t fi]|]; [|by apply elem_of_nil in Hx].
+      apply elem_of_list_singleton in Hx as [= -> ->]. by apply elem_of_list_singleton in Hy as [= ->].
+    - assert (Hq : ∀ p, q ≠ pin (dff_inst q) p). { intros p E. pose proof (ident_not_pin (dff_inst q) p) as Hn. rewrite <- E in Hn. congruence. }
+      assert (Hdq : pin (dff_inst q) rd_dff_in ≠ pin (dff_inst q) rd_dff_out). { intros E. apply pin_dff_inj in E as [_ E]; done. }
+      rewrite !elem_of_cons in Hx, Hy.
+      destruct Hx as [[= E1 ->]|[[= E1 ->]|[[= E1 ->]|Hx]]]; [| | |by apply elem_of_nil in Hx];
+        (destruct Hy as [[= E2 ->]|[[= E2 ->]|[[= E2 ->]|Hy]]]; [| | |by apply elem_of_nil in Hy]); try done;
+        exfalso; rewrite E1 in E2; first [exact (Hq _ E2)|exact (Hq _ (eq_sym E2))|exact (Hdq E2)|exact (Hdq (eq_sym E2))].
+  Qed.
+
+  Lemma key_unique i x y : (i, x) ∈ NL → (i, y) ∈ NL → x = y.
+  Proof.
+    unfold NL. rewrite !elem_of_list_bind. intros (l1 & Hx & Hl1) (l2 & Hy & Hl2).
+    assert (l1 = l2) as <-; [|by eapply key_unique_line].
+    destruct (key_kind _ _ _ Hl1 Hx) as [[Hid1 Hk1]|[Hid1 (q1 & d1 & p1 & -> & E1 & Hp1)]];
+      destruct (key_kind _ _ _ Hl2 Hy) as [[Hid2 Hk2]|[Hid2 (q2 & d2 & p2 & -> & E2 & Hp2)]]; try congruence.
+    - by eapply lhs_same_line.
+    - rewrite E1 in E2. apply pin_dff_inj in E2 as [<- _]; [|by destruct Hp1 as [-> | ->], Hp2 as [-> | ->]].
+      eapply (lhs_same_line q1); eauto; simpl; by left.
+  Qed.
+
+  Lemma graph_lookup i x : bench_graph ls !! i = Some x ↔ ∃ l, l ∈ ls ∧ (i, x) ∈ line_nodes outs l.
+  Proof.
+    unfold bench_graph. fold outs. fold NL. rewrite <- elem_of_list_to_map'.
+    - unfold NL. rewrite elem_of_list_bind. naive_solver.
+    - intros x' H1 H2. by eapply key_unique.
+  Qed.
+End closed_form.
+
+Lemma node_ok_fun v n T o S : is_free (mk_node T o S) = false → node_ok v n (mk_node T o S) → v n = node_fun T v S.
+Proof. unfold node_ok. intros ->. destruct T; simpl; auto. Qed.
+Lemma fun_node_ok v n T o S : is_free (mk_node T o S) = false → v n = node_fun T v S → node_ok v n (mk_node T o S).
+Proof. unfold node_ok. intros ->. destruct T; simpl; auto. Qed.
+
+Lemma gate_args_not_free g ops t ty fi o : doc_gate g = Some t → gate_args g ops = Some (ty, fi) →
+  is_free (mk_node (type_of_name ty) o (list_to_set fi)) = false.
+Proof.
+  intros Hdoc Hargs. rewrite gate_args_doc, Hdoc in Hargs. destruct ops as [|o1 ops]; [done|].
+  pose proof (doc_gate_type _ _ Hdoc) as Ht. unfold gate_types in Ht.
+  repeat (apply elem_of_cons in Ht as [->|Ht]); try (by apply elem_of_nil in Ht).
+  all: try (rewrite (bool_decide_eq_false_2 (_ ∈ [Xor; Xnor])) in Hargs by set_solver).
+  all: try (rewrite (bool_decide_eq_true_2 (_ ∈ [Xor; Xnor])) in Hargs by set_solver).
+  all: try (rewrite (bool_decide_eq_true_2 (Xor = Xor)) in Hargs by done).
+  all: try (rewrite (bool_decide_eq_false_2 (Xnor = Xor)) in Hargs by done).
+  all: injection Hargs as <- <-.
+  all: try reflexivity.
+  - apply bool_decide_eq_false. set_solver.
+  - apply bool_decide_eq_false. set_solver.
+  - case_bool_decide; reflexivity.
+  - case_bool_decide; reflexivity.
+Qed.
+Lemma gate_args_some g ops t : doc_gate g = Some t → ops ≠ [] → ∃ ty fi, gate_args g ops = Some (ty, fi).
+Proof. intros Hd Ho. rewrite gate_args_doc, Hd. destruct ops; [done|]. destruct (bool_decide (t ∈ [Xor; Xnor])); eauto. Qed.
+
+Section closed_form_sem.
+  Context (ls : list bline) (Hwf : wfb ls = true).
+  Let outs : gset string := list_to_set (decl_outputs ls).
+
+  (* a gate equation of the text comes from a gate line of the dialect *)
+  Lemma gate_lines_inv n t ops : (n, t, ops) ∈ gate_lines ls → ∃ g, BGate n g ops ∈ ls ∧ doc_gate g = Some t.
+  Proof.
+    unfold gate_lines. rewrite elem_of_list_bind. intros (l & Hin & Hl).
+    destruct l as [?|?|n' g ops'|? ?]; try (by apply elem_of_nil in Hin).
+    destruct (doc_gate g) as [t'|] eqn:E; [|by apply elem_of_nil in Hin].
+    apply elem_of_list_singleton in Hin as [= -> -> ->]. eauto.
+  Qed.
+  Lemma gate_line_node n g ops t : BGate n g ops ∈ ls → doc_gate g = Some t →
+    ∃ ty fi, gate_args g ops = Some (ty, fi) ∧ (t ∈ [Buf; Not] → length ops = 1)
+      ∧ bench_graph ls !! n = Some (mk_node (type_of_name ty) (bool_decide (n ∈ outs)) (list_to_set fi)).
+  Proof.
+    intros Hl Hd. pose proof (wf_line ls Hwf _ Hl) as Hok. simpl in Hok. rewrite Hd in Hok.
+    apply andb_true_iff in Hok as [_ Hlen].
+    assert (Hne : ops ≠ []). { intros ->. case_bool_decide; apply bool_decide_eq_true in Hlen; simpl in Hlen; lia. }
+    destruct (gate_args_some g ops t Hd Hne) as (ty & fi & Hargs). exists ty, fi. split; [done|]. split.
+    - intros Hin. rewrite bool_decide_eq_true_2 in Hlen by done. by apply bool_decide_eq_true in Hlen.
+    - apply (graph_lookup ls Hwf). exists (BGate n g ops). split; [done|]. simpl. rewrite Hargs. by apply elem_of_list_singleton.
+  Qed.
+
+  (* every consistent valuation of the closed-form circuit satisfies the equations of the text *)
+  Theorem closed_sound v : consistent (bench_graph ls) v → sat_bench ls v.
+  Proof.
+    intros Hc n t ops Hin. apply gate_lines_inv in Hin as (g & Hl & Hd).
+    destruct (gate_line_node n g ops t Hl Hd) as (ty & fi & Hargs & Hlen & Hlook).
+    specialize (Hc _ _ Hlook). apply node_ok_fun in Hc; [|by eapply gate_args_not_free].
+    rewrite Hc. by eapply gate_line_denotes.
+  Qed.
+
+  (* exactly the declared inputs *)
+  Theorem closed_inputs : inputs (bench_graph ls) = list_to_set (decl_inputs ls).
+  Proof.
+    apply set_eq. intros n. rewrite elem_of_inputs, elem_of_list_to_set. unfold decl_inputs. rewrite elem_of_list_bind. split.
+    - intros (i & Hi & Hty). apply (graph_lookup ls Hwf) in Hi as (l & Hl & Hin). exists l. split; [|done].
+      destruct l as [m|m|m g ops|q d]; simpl in Hin.
+      + apply elem_of_list_singleton in Hin as [= -> _]. by apply elem_of_list_singleton.
+      + by apply elem_of_nil in Hin.
+      + exfalso. pose proof (wf_line ls Hwf _ Hl) as Hok. simpl in Hok. apply andb_true_iff in Hok as [_ Hok].
+        destruct (doc_gate g) as [t|] eqn:Hd; [|done].
+        destruct (gate_args g ops) as [[ty fi]|] eqn:Hargs; [|by apply elem_of_nil in Hin].
+        apply elem_of_list_singleton in Hin as [= -> ->]. simpl in Hty.
+        pose proof (gate_args_not_free g ops t ty fi false Hd Hargs) as Hfree. unfold is_free in Hfree. simpl in Hfree. by rewrite Hty in Hfree.
+      + exfalso. rewrite !elem_of_cons in Hin. destruct Hin as [[= _ ->]|[[= _ ->]|[[= _ ->]|Hin]]]; try done. by apply elem_of_nil in Hin.
+    - intros (l & Hin & Hl). destruct l as [m|m|m g ops|q d]; try (by apply elem_of_nil in Hin).
+      apply elem_of_list_singleton in Hin as ->. exists (mk_node Input (bool_decide (m ∈ outs)) ∅). split; [|done].
+      apply (graph_lookup ls Hwf). exists (BInput m). split; [done|]. simpl. by apply elem_of_list_singleton.
+  Qed.
+
+  (* each DFF line is a registered dff instance between its D net and its Q net *)
+  Theorem closed_dff name q d : (q, d) ∈ dff_lines ls → dff_between (bench_closed name ls) q d.
+  Proof.
+    unfold dff_lines. rewrite elem_of_list_bind. intros (l & Hin & Hl).
+    destruct l as [?|?|? ? ?|q' d']; try (by apply elem_of_nil in Hin). apply elem_of_list_singleton in Hin as [= <- <-].
+    assert (HD : bench_graph ls !! pin (dff_inst q) rd_dff_in = Some (mk_node BbIn false {[ d ]})).
+    { apply (graph_lookup ls Hwf). exists (BDff q d). split; [done|]. simpl. set_solver. }
+    assert (HQ : bench_graph ls !! pin (dff_inst q) rd_dff_out = Some (mk_node BbOut false ∅)).
+    { apply (graph_lookup ls Hwf). exists (BDff q d). split; [done|]. simpl. set_solver. }
+    assert (Hq : bench_graph ls !! q = Some (mk_node Buf (bool_decide (q ∈ outs)) {[ pin (dff_inst q) rd_dff_out ]})).
+    { apply (graph_lookup ls Hwf). exists (BDff q d). split; [done|]. simpl. set_solver. }
+    unfold dff_between, ty, fanin. change (doc_inst q) with (dff_inst q). change "D" with rd_dff_in. change "Q" with rd_dff_out.
+    simpl c_g. rewrite HD, HQ, Hq. simpl. repeat split; try done.
+    change doc_dff with dff_def. apply elem_of_list_to_map_1'.
+    - intros y Hy. apply elem_of_list_bind in Hy as (l' & Hy & _). destruct l'; try (by apply elem_of_nil in Hy).
+      by apply elem_of_list_singleton in Hy as [= _ ->].
+    - apply elem_of_list_bind. exists (BDff q d). split; [|done]. simpl. by apply elem_of_list_singleton.
+  Qed.
+End closed_form_sem.
